@@ -59,7 +59,7 @@ def run(item, ctx, tier, seed):
     anytie = any(a + c > 1 for a, c in blocks)
     dt = {"uint": np.uint8, "int": np.int64}.get(item["grid"], np.float64)
     lo, hi = float(vals[0]), float(vals[-1])
-    thr_menu = [None, [lo + 1.0, lo - 5.0, (lo + hi) / 2 + 0.2], [math.inf]]
+    thr_menu = [None, [lo + 1.0, lo - 5.0, (lo + hi) / 2 + 0.2], [math.inf], "ints"]
     combos = list(itertools.product(range(len(b["rate_menu"])), range(len(b["rate_menu"])), range(len(thr_menu)),
                                     range(len(b["nb_points"]))))
     for cfg in ot.CFGS:
@@ -67,79 +67,90 @@ def run(item, ctx, tier, seed):
         for ep, en in [tuple(e) for e in b["easy"]]:
             base = {"blocks": item["blocks"], "grid": item["grid"], "pos": pos, "neg": neg, "cfg": cfg,
                     "easy": [ep, en]}
-            ok, s = guarded(ctx, "construct", base, Scores, np.array(pos[::-1], dtype=dt), np.array(neg[::-1], dtype=dt),
-                            nb_easy_pos=ep, nb_easy_neg=en, score_class=sc, equal_class=ec)
+            ok, s0 = guarded(ctx, "construct", base, Scores, np.array(pos[::-1], dtype=dt), np.array(neg[::-1], dtype=dt),
+                             nb_easy_pos=ep, nb_easy_neg=en, score_class=sc, equal_class=ec)
             if not ok:
                 continue
-            ctx.state()
-            for ci, (i_fnr, i_fpr, i_thr, i_nb) in enumerate(combos):
-                fnr_in, fpr_in = b["rate_menu"][i_fnr], b["rate_menu"][i_fpr]
-                thr_in, nbp = thr_menu[i_thr], b["nb_points"][i_nb]
-                axes = AXES if ci in (0, 37, 101) else [AXES[(ci + len(pos)) % 8]]
-                for ax in axes:
-                    case = dict(base, fnr=fnr_in, fpr=fpr_in, thresholds=thr_in, nb_points=nbp, x_axis=ax)
-                    kw = {}
-                    if fnr_in is not None:
-                        kw["fnr"] = np.array(fnr_in, dtype=float)
-                    if fpr_in is not None:
-                        kw["fpr"] = np.array(fpr_in, dtype=float)
-                    if thr_in is not None:
-                        kw["thresholds"] = np.array(thr_in, dtype=float)
-                    snip = ("import numpy as np\nfrom score_analysis import Scores\nfrom score_analysis.roc_curve import roc\n"
-                            f"s = Scores(np.array({pos!r}, dtype=np.{np.dtype(dt).name}), np.array({neg!r}, dtype=np.{np.dtype(dt).name}), "
-                            f"nb_easy_pos={ep}, nb_easy_neg={en}, score_class={sc!r}, equal_class={ec!r})\n"
-                            f"r = roc(s, fnr={fnr_in!r}, fpr={fpr_in!r}, thresholds={thr_in!r}, nb_points={nbp!r}, x_axis={ax!r})\n"
-                            "print(r.thresholds, r.fnr, r.fpr)\n").replace("inf", "np.inf")
-                    kw_before = {k: v.copy() for k, v in kw.items()}
-                    ok, r = guarded(ctx, "roc", case, lambda: roc(s, nb_points=nbp, x_axis=ax, **kw))
-                    ctx.tick()
-                    if not ok:
-                        continue
-                    for k, v in kw.items():
-                        if not np.array_equal(v, kw_before[k], equal_nan=True):
-                            ctx.fail("supplied-arrays-unchanged", dict(case, argument=k), observed=v, expected=kw_before[k])
-                    th = np.asarray(r.thresholds)
-                    fnr, fpr = np.asarray(r.fnr, dtype=float), np.asarray(r.fpr, dtype=float)
-                    if not (th.ndim == 1 and fnr.shape == th.shape and fpr.shape == th.shape):
-                        ctx.fail("equal-lengths", case, observed=[list(th.shape), list(fnr.shape), list(fpr.shape)],
-                                 expected="equal 1-d", snippet=snip)
-                        continue
-                    supplied = any(v is not None and len(v) for v in (fnr_in, fpr_in, thr_in))
-                    if len(set(th.tolist())) >= 2 and (anytie or ep + en or sc == "neg" or supplied):
-                        ctx.nontrivial()
-                    ctx.outcome((ax, len(th), tuple(np.round(fnr, 6)), tuple(np.round(fpr, 6))))
-                    if len(th):
-                        w_fnr, w_fpr = np.asarray(s.fnr(th), dtype=float), np.asarray(s.fpr(th), dtype=float)
-                        if not (np.array_equal(fnr, w_fnr, equal_nan=True) and np.array_equal(fpr, w_fpr, equal_nan=True)):
-                            ctx.fail("rates-are-the-objects-rates-at-thresholds", case, observed=[fnr, fpr],
-                                     expected=[w_fnr, w_fpr], snippet=snip)
-                    view = np.asarray(getattr(r, ax), dtype=float)
-                    if not _isnondecreasing(view):
-                        ctx.fail("x-axis-non-decreasing", case, observed=view, expected="non-decreasing", snippet=snip)
-                    thl = th.tolist()
-                    if thr_in is not None:
-                        miss = [t for t in thr_in if t not in thl]
-                        if miss:
-                            ctx.fail("supplied-thresholds-present", case, observed=thl, expected=miss, snippet=snip)
-                    for nm, rates in (("fnr", fnr_in), ("fpr", fpr_in)):
-                        if rates:
-                            want = np.asarray(getattr(s, "threshold_at_" + nm)(np.array(rates, dtype=float)), dtype=float)
-                            miss = [t for t in want.tolist() if t not in thl]
-                            if miss:
-                                ctx.fail("thresholds-of-supplied-rates-present", dict(case, which=nm), observed=thl,
-                                         expected=miss, snippet=snip)
-                    if not supplied:
-                        want_n = (len(pos) + len(neg)) if nbp is None else nbp
-                        if len(th) != want_n:
-                            ctx.fail("default-curve-length", case, observed=len(th), expected=want_n, snippet=snip)
-                    # derived views
-                    if not (np.array_equal(np.asarray(r.tpr), 1.0 - fnr, equal_nan=True)
-                            and np.array_equal(np.asarray(r.tnr), 1.0 - fpr, equal_nan=True)
-                            and np.array_equal(np.asarray(r.frr), fnr, equal_nan=True)
-                            and np.array_equal(np.asarray(r.far), fpr, equal_nan=True)
-                            and np.array_equal(np.asarray(r.tar), np.asarray(r.tpr), equal_nan=True)
-                            and np.array_equal(np.asarray(r.trr), np.asarray(r.tnr), equal_nan=True)):
-                        ctx.fail("derived-views", case, observed="mismatch", expected="complements/aliases", snippet=snip)
+            derived = [("constructed", s0, combos)]
+            ok, sw = guarded(ctx, "swap", base, s0.swap)
+            if ok:
+                # objects derived through swap() are Scores objects like any other
+                derived.append(("swap()", sw, combos[3::17]))
+            for how, s, cmb in derived:
+              base = dict(base, derived=how)
+              ctx.state()
+              for ci, (i_fnr, i_fpr, i_thr, i_nb) in list(enumerate(combos)) if how == "constructed" else [(combos.index(c), c) for c in cmb]:
+                  fnr_in, fpr_in = b["rate_menu"][i_fnr], b["rate_menu"][i_fpr]
+                  thr_in, nbp = thr_menu[i_thr], b["nb_points"][i_nb]
+                  axes = AXES if ci in (0, 37, 101) else [AXES[(ci + len(pos)) % 8]]
+                  for ax in axes:
+                      case = dict(base, fnr=fnr_in, fpr=fpr_in, thresholds=thr_in, nb_points=nbp, x_axis=ax)
+                      kw = {}
+                      if fnr_in is not None:
+                          kw["fnr"] = np.array(fnr_in, dtype=float)
+                      if fpr_in is not None:
+                          kw["fpr"] = np.array(fpr_in, dtype=float)
+                      if thr_in == "ints":  # a plain list of Python ints (integer dtype once converted)
+                          thr_in = [int(lo) + 1, int(lo) - 4, int(hi)]
+                          case["thresholds"] = thr_in
+                          kw["thresholds"] = list(thr_in)
+                      elif thr_in is not None:
+                          kw["thresholds"] = np.array(thr_in, dtype=float)
+                      snip = ("import numpy as np\nfrom score_analysis import Scores\nfrom score_analysis.roc_curve import roc\n"
+                              f"s = Scores(np.array({pos!r}, dtype=np.{np.dtype(dt).name}), np.array({neg!r}, dtype=np.{np.dtype(dt).name}), "
+                              f"nb_easy_pos={ep}, nb_easy_neg={en}, score_class={sc!r}, equal_class={ec!r})\n"
+                              f"r = roc(s, fnr={fnr_in!r}, fpr={fpr_in!r}, thresholds={thr_in!r}, nb_points={nbp!r}, x_axis={ax!r})\n"
+                              "print(r.thresholds, r.fnr, r.fpr)\n").replace("inf", "np.inf")
+                      kw_before = {k: (v.copy() if hasattr(v, "copy") else list(v)) for k, v in kw.items()}
+                      ok, r = guarded(ctx, "roc", case, lambda: roc(s, nb_points=nbp, x_axis=ax, **kw))
+                      ctx.tick()
+                      if not ok:
+                          continue
+                      for k, v in kw.items():
+                          if not np.array_equal(np.asarray(v, dtype=float), np.asarray(kw_before[k], dtype=float), equal_nan=True):
+                              ctx.fail("supplied-arrays-unchanged", dict(case, argument=k), observed=v, expected=kw_before[k])
+                      th = np.asarray(r.thresholds)
+                      fnr, fpr = np.asarray(r.fnr, dtype=float), np.asarray(r.fpr, dtype=float)
+                      if not (th.ndim == 1 and fnr.shape == th.shape and fpr.shape == th.shape):
+                          ctx.fail("equal-lengths", case, observed=[list(th.shape), list(fnr.shape), list(fpr.shape)],
+                                   expected="equal 1-d", snippet=snip)
+                          continue
+                      supplied = any(v is not None and len(v) for v in (fnr_in, fpr_in, thr_in))
+                      if len(set(th.tolist())) >= 2 and (anytie or ep + en or sc == "neg" or supplied):
+                          ctx.nontrivial()
+                      ctx.outcome((ax, len(th), tuple(np.round(fnr, 6)), tuple(np.round(fpr, 6))))
+                      if len(th):
+                          w_fnr, w_fpr = np.asarray(s.fnr(th), dtype=float), np.asarray(s.fpr(th), dtype=float)
+                          if not (np.array_equal(fnr, w_fnr, equal_nan=True) and np.array_equal(fpr, w_fpr, equal_nan=True)):
+                              ctx.fail("rates-are-the-objects-rates-at-thresholds", case, observed=[fnr, fpr],
+                                       expected=[w_fnr, w_fpr], snippet=snip)
+                      view = np.asarray(getattr(r, ax), dtype=float)
+                      if not _isnondecreasing(view):
+                          ctx.fail("x-axis-non-decreasing", case, observed=view, expected="non-decreasing", snippet=snip)
+                      thl = th.tolist()
+                      if thr_in is not None:
+                          miss = [t for t in thr_in if t not in thl]
+                          if miss:
+                              ctx.fail("supplied-thresholds-present", case, observed=thl, expected=miss, snippet=snip)
+                      for nm, rates in (("fnr", fnr_in), ("fpr", fpr_in)):
+                          if rates:
+                              want = np.asarray(getattr(s, "threshold_at_" + nm)(np.array(rates, dtype=float)), dtype=float)
+                              miss = [t for t in want.tolist() if t not in thl]
+                              if miss:
+                                  ctx.fail("thresholds-of-supplied-rates-present", dict(case, which=nm), observed=thl,
+                                           expected=miss, snippet=snip)
+                      if not supplied:
+                          want_n = (len(pos) + len(neg)) if nbp is None else nbp
+                          if len(th) != want_n:
+                              ctx.fail("default-curve-length", case, observed=len(th), expected=want_n, snippet=snip)
+                      # derived views
+                      if not (np.array_equal(np.asarray(r.tpr), 1.0 - fnr, equal_nan=True)
+                              and np.array_equal(np.asarray(r.tnr), 1.0 - fpr, equal_nan=True)
+                              and np.array_equal(np.asarray(r.frr), fnr, equal_nan=True)
+                              and np.array_equal(np.asarray(r.far), fpr, equal_nan=True)
+                              and np.array_equal(np.asarray(r.tar), np.asarray(r.tpr), equal_nan=True)
+                              and np.array_equal(np.asarray(r.trr), np.asarray(r.tnr), equal_nan=True)):
+                          ctx.fail("derived-views", case, observed="mismatch", expected="complements/aliases", snippet=snip)
             # unknown axis
             for bad in ("auc", "FPR", ""):
                 ctx.tick()
